@@ -61,6 +61,12 @@ func isPureASCII(s string) bool {
 
 func Check09(c Case09, r *core.Rec) {
 	D := string(c.Decoded)
+	if c.Scheme == "file" && len(D) == 2 && (D[0]|0x20) >= 'a' && (D[0]|0x20) <= 'z' && D[1] == '|' {
+		// "file://C|/" is the standard's Windows-drive-letter quirk: the literal text is not a host at
+		// all (it becomes the first path segment), so literal and escaped spellings are different URLs
+		r.Vacuous()
+		return
+	}
 	spellings := [4]string{spell(c, false, false), spell(c, true, false), spell(c, false, true), spell(c, true, true)}
 	type outcome struct {
 		ok             bool
